@@ -63,6 +63,8 @@ structure VSys (W : Type) where
   time    : W → Int
   getStep : W → Int
   setStep : Int → W → W
+  /-- the clock has just recomputed its own step in `step_forward` (per-simulant clocks and a non-empty population) -/
+  recomputed : W → Bool
 
 namespace VSys
 variable {W : Type}
@@ -77,12 +79,15 @@ def run (S : VSys W) (stop : Int) : Nat → W → Nat × W
   | fuel+1, w =>
     if S.time w < stop then let r := run S stop fuel (S.step w); (r.1 + 1, r.2) else (0, w)
 
-/-- `InteractiveContext.step(step_size)`: with an explicit size the clock's step is set before the engine
-step and the old one written back afterwards; without one nothing is touched (Gen.interactiveStepRestoresOnlyWhenGiven) -/
+/-- `InteractiveContext.step(step_size)`: with an explicit size the clock's step is set before the engine step;
+afterwards the old one is written back unless the clock has just recomputed its own step (F33); without an
+explicit size nothing is touched (Gen.interactiveStepRestoreGuard = "givenAndNotRecomputed") -/
 def istep (S : VSys W) (arg : Option Int) (w : W) : W :=
   match arg with
   | none => S.step w
-  | some h => S.setStep (S.getStep w) (S.step (S.setStep h w))
+  | some h =>
+    let w' := S.step (S.setStep h w)
+    if S.recomputed w' then w' else S.setStep (S.getStep w) w'
 
 /-- `take_steps(n, step_size)`: `for _ in range(n): self.step(step_size)` with the argument passed through
 unchanged (Gen.takeStepsForwardsStepSize) -/
